@@ -7,7 +7,11 @@ open Driver ScionTime.Wire ScionTime.NtpPacket ScionTime.ServerReply
   vreqpkt <hex> <srcport>         -> ok <bool> | err size           DecodePacket, then ValidateRequest
   reply.hdr <hex request>         -> ok <lvm> <stratum> <poll> <precision> <rdelayS> <rdelayF> <rdispS> <rdispF> <refid>
   ip.dgram <hex payload> nts=<0|1> -> ok none | ok reply n=1 len=48 lvm=<..> stratum=<..> src=server
-                                     (one datagram to the running IP listener; nts = outcome of the NTS branch)
+                                     (one datagram to the running IP listener; nts = outcome of the NTS branch;
+                                      the implementation side answers `ok sentinel-unanswered n=<k>` when the
+                                      well-formed request that follows on the same socket gets no reply)
+  ip.seq <hex>,<hex>,… nts=<0|1>  -> ok answered=<0/1 per datagram> extra=0 sentinel=answered shape=ok
+                                     (datagrams sent from one client socket to one listener socket, in order)
 -/
 def boolOfNat? (s : String) : Option Bool :=
   if s = "0" then some false else if s = "1" then some true else none
@@ -51,6 +55,17 @@ def step (_ : Unit) (toks : List String) : Unit × String :=
       | .crash c, _ => ((), s!"panic {c}")
       | .reply, _ => ((), "bad-op")
       | _, _ => ((), "ok none")
+    | _, _ => ((), "bad-op")
+  | ["ip.seq", hs, nts] =>
+    -- several datagrams from ONE client socket, then a well-formed sentinel from the same socket
+    match (hs.splitOn ",").mapM parseHex?, (kv? [nts] "nts").bind boolOfNat? with
+    | some bs, some ntsOk =>
+      let ds := runLoop true ipServerBufLen (bs.map fun b => (b, ntsOk))
+      if (bs.zip ds).any (fun (b, d) => d = .reply && b.length > packetLen) then ((), "bad-op")
+      else if ds.any (fun d => match d with | .crash _ => true | _ => false) then ((), "panic crash")
+      else
+        let pat := String.ofList (ds.map fun d => if d = .reply then '1' else '0')
+        ((), s!"ok answered={pat} extra=0 sentinel=answered shape=ok")
     | _, _ => ((), "bad-op")
   | _ => ((), "bad-op")
 
